@@ -1,5 +1,7 @@
 import Pyrealb.Props.C07
+import Pyrealb.Props.C07Compose
 open Pyrealb.C07
 #print axioms exception_iff_warning_holds
 #print axioms only_pyrealb_exception_holds
 #print axioms option_decision_holds
+#print axioms Pyrealb.C07.components_total_holds
